@@ -1555,6 +1555,8 @@ def _sorted(I, args, kwargs):
     xs = args[0]
     if isinstance(xs, (list, tuple, set, frozenset, dict)) and not deep_symbolic(xs) and not kwargs:
         return sorted(xs)
+    if kwargs and (isinstance(xs, (MSet, SV, MList))):
+        raise Unsupported("sorted() with key= / reverse= on symbolic data")
     if isinstance(xs, MSet) or (isinstance(xs, SV) and is_set_term(I, xs.t)):
         el = xs.elems if isinstance(xs, MSet) else V.set_elems(xs.t)
         _used("sorted(set): uninterpreted py_sorted(members); independent of the enumeration order (assumed)")
